@@ -52,6 +52,8 @@ type modeC struct {
 	closed  bool
 	bgSeq   int
 	bgTasks []*sim.Task
+	// ioFailed: the injected disk error has fired in this run.
+	ioFailed bool
 }
 
 func (m *modeC) next() int { m.seq++; return m.seq }
